@@ -3,6 +3,7 @@ package main
 import (
 	"encoding/json"
 	"fmt"
+	"github.com/aml-org/amf-custom-validator/pkg/config"
 	"io"
 )
 
@@ -23,8 +24,12 @@ type C03Case struct {
 	Levels      map[string][]string `json:"levels"`
 	Graph       Graph               `json:"graph"`
 	Config      C03Config           `json:"config"`
-	Profile     string              `json:"profile"`
-	Data        string              `json:"data"`
+	// which entry point: 0 Validate, 1 ValidateCompiled (both: default configuration, wall clock), 2 ValidateWithConfiguration,
+	// 3 ValidateCompiledWithConfiguration; and the debug flag passed to it
+	Entry   int    `json:"entry"`
+	Debug   bool   `json:"debug"`
+	Profile string `json:"profile"`
+	Data    string `json:"data"`
 }
 
 var levelNames = []string{"violation", "warning", "info"}
@@ -75,6 +80,14 @@ func genC03(g *G, n int, out io.Writer) {
 			Time:          fmt.Sprintf("20%02d-0%d-1%dT0%d:%02d:%02d%s", g.n(30), 1+g.n(9), g.n(9), g.n(9), g.n(60), g.n(60), g.pick([]string{"Z", "Z", "+02:00", "-08:00", "+05:30", "-00:30", "+14:00"})),
 			ReportSchema:  g.pick([]string{"file:///dialects/validation-report.yaml", "http://x.org/r", ""}),
 			LexicalSchema: g.pick([]string{"file:///dialects/lexical.yaml", "http://x.org/l"}),
+		}
+		c.Entry = []int{2, 3, 2, 3, 0, 1}[i%6]
+		c.Debug = g.coin(0.15)
+		if c.Entry < 2 {
+			// the entry points without a configuration use the default one and the wall clock: the harness checks that the date
+			// is the current time and hands "NOW" to the comparison
+			def := config.DefaultReportConfiguration()
+			c.Config = C03Config{IncludeDate: def.IncludeReportCreationTime, Time: "NOW", ReportSchema: def.ReportSchemaIri, LexicalSchema: def.LexicalSchemaIri}
 		}
 		prof := ProfileSpec{Name: c.ProfileName, Atoms: c.Atoms, Paths: c.Paths, Validations: c.Validations, Levels: c.Levels}
 		c.Profile = prof.Render()
